@@ -4,6 +4,7 @@ import (
 	"encoding/json"
 	"fmt"
 	"path/filepath"
+	"sort"
 	"strconv"
 	"sync"
 	"time"
@@ -258,6 +259,13 @@ func confirmAndMinimise(b builds, cfg tierCfg, viol *proto.Record) *proto.Record
 				cur = c
 			}
 			m.cands++
+			if cur.Build != "ref" && !probabilistic && len(cur.Run.Events) > 60 && !m.exhausted() {
+				// thousands of switches (fine time slices) are hopeless to shrink one by one:
+				// look for a simpler schedule of the same workload first
+				if found := m.search(cloneRec(cur)); found != nil && len(found.Run.Events) < len(cur.Run.Events) {
+					cur = found
+				}
+			}
 			cur = m.shrinkEvents(cur)
 		}
 		if t1, o1, e1 := countOps(cur); t1 == t0 && o1 == o0 && e1 == e0 {
@@ -498,6 +506,13 @@ func (m *minimiser) search(c *proto.Record) *proto.Record {
 	}
 	wg.Wait()
 	m.cands += procs
+	// prefer the schedule with the fewest events
+	sort.SliceStable(out, func(i, j int) bool {
+		if out[i] == nil || out[j] == nil {
+			return out[j] == nil && out[i] != nil
+		}
+		return len(out[i].Run.Events) < len(out[j].Run.Events)
+	})
 	for _, r := range out {
 		if r == nil {
 			continue
